@@ -24,6 +24,7 @@ func main() {
 	n := flag.Int("n", 100, "number of sequences")
 	replay := flag.String("replay", "", "file with one statement text per line: run them as one sequence")
 	bulkFlag := flag.Int("bulk", 0, "bulk size (0 = drawn per sequence)")
+	big := flag.Bool("big", false, "also run the DECONSTRUCT of 1027 rows as one batch (bulk size 2048)")
 	mode := flag.String("mode", "random", "random | pool (all sequences of at most -len statements from the fixed pool)")
 	maxLen := flag.Int("len", 3, "maximal sequence length in pool mode")
 	flag.Parse()
@@ -191,6 +192,54 @@ func main() {
 	wide(-3, 2, 5)
 	wide(-4, 1, 4)
 	wide(-5, 0, runtime.GOMAXPROCS(0)+1)
+	// corpus: batches of more than 1024 triples whose size is not a multiple of GOMAXPROCS (DELETE DATA of 1027 of
+	// 1031 triples under GOMAXPROCS 4; DECONSTRUCT of 1027 rows written as one batch, bulk size 2048)
+	sized := func(id, bulk int, deconstruct bool) {
+		old := runtime.GOMAXPROCS(4)
+		defer runtime.GOMAXPROCS(old)
+		st := memory.NewStore()
+		b := NewBlanks()
+		g := &Gen{R: rnd, B: b}
+		seq := Seq{ID: id, Bulk: bulk}
+		step := func(s VStmt) {
+			if s.Kind == "construct" {
+				s.Q = g.Query(ctx, st, s.Ins, s.WB, s.Note)
+			}
+			r := Execute(ctx, st, s.Text, seq.Bulk)
+			s.Obs = &Observed{Class: r.Class, Err: r.Err, After: Listing(ctx, st, b)}
+			seq.Stmts = append(seq.Stmts, s)
+		}
+		data := func(kind string, from, to int) VStmt {
+			var ts []VTriple
+			var tt []string
+			for k := from; k < to; k++ {
+				t := VTriple{S: VNode{T: "/u", I: fmt.Sprintf("n%d", k)}, P: VPred{ID: "p"}, O: VObj{N: &VNode{T: "/u", I: "b"}}}
+				ts = append(ts, t)
+				tt = append(tt, b.TripleText(t))
+			}
+			kw := "INSERT DATA INTO "
+			if kind == "delete" {
+				kw = "DELETE DATA FROM "
+			}
+			return VStmt{Kind: kind, Gs: []string{"?big"}, Ts: ts, Text: kw + "?big { " + strings.Join(tt, " . ") + " };"}
+		}
+		step(VStmt{Kind: "create", Gs: []string{"?big"}, Text: "CREATE GRAPH ?big;"})
+		if deconstruct {
+			step(data("insert", 0, 1027))
+			c := Pool(b)[6] // DECONSTRUCT { ?s "p"@[] ?o } IN ... WHERE { ?s "p"@[] ?o }
+			c.Outs, c.Ins = []string{"?big"}, []string{"?big"}
+			c.Text = fmt.Sprintf("DECONSTRUCT { %s } IN ?big FROM ?big WHERE { %s };", b.RenderTemplate(c.Tmpl), c.Note)
+			step(c)
+		} else {
+			step(data("insert", 0, 1031))
+			step(data("delete", 0, 1027))
+		}
+		enc.Encode(seq)
+	}
+	sized(-6, 100, false)
+	if *big {
+		sized(-7, 2048, true)
+	}
 	for i := 0; i < *n; i++ {
 		// every tenth random sequence runs under GOMAXPROCS 1 or 2 with target lists of three graphs
 		wideSeq := i%10 == 9
